@@ -330,9 +330,27 @@ ElemAttribute::startElement(StylesheetExecutionContext& executionContext) const
                             // declaration here, rather than somewhere that
                             // knows more about how that result namespace is
                             // used, let's change the prefix of the attribute.
-                            nsprefix.clear();
+                            // If another prefix is bound to the namespace, use
+                            // that one, so the attribute replaces any attribute
+                            // with the same expanded name.
+                            const XalanDOMString* const     theOtherPrefix =
+                                executionContext.getResultPrefixForNamespace(*theNamespace);
 
-                            executionContext.getUniqueNamespaceValue(nsprefix);
+                            const XalanDOMString* const     theOtherNamespace =
+                                theOtherPrefix == 0 || theOtherPrefix->empty() == true ? 0 :
+                                    executionContext.getResultNamespaceForPrefix(*theOtherPrefix);
+
+                            if (theOtherNamespace != 0 &&
+                                *theOtherNamespace == *theNamespace)
+                            {
+                                nsprefix = *theOtherPrefix;
+                            }
+                            else
+                            {
+                                nsprefix.clear();
+
+                                executionContext.getUniqueNamespaceValue(nsprefix);
+                            }
 
                             // Fix the name by removing the original prefix and
                             // inserting the new one.
@@ -635,9 +653,27 @@ ElemAttribute::execute(StylesheetExecutionContext&  executionContext) const
                             // declaration here, rather than somewhere that
                             // knows more about how that result namespace is
                             // used, let's change the prefix of the attribute.
-                            nsprefix.clear();
+                            // If another prefix is bound to the namespace, use
+                            // that one, so the attribute replaces any attribute
+                            // with the same expanded name.
+                            const XalanDOMString* const     theOtherPrefix =
+                                executionContext.getResultPrefixForNamespace(*theNamespace);
 
-                            executionContext.getUniqueNamespaceValue(nsprefix);
+                            const XalanDOMString* const     theOtherNamespace =
+                                theOtherPrefix == 0 || theOtherPrefix->empty() == true ? 0 :
+                                    executionContext.getResultNamespaceForPrefix(*theOtherPrefix);
+
+                            if (theOtherNamespace != 0 &&
+                                *theOtherNamespace == *theNamespace)
+                            {
+                                nsprefix = *theOtherPrefix;
+                            }
+                            else
+                            {
+                                nsprefix.clear();
+
+                                executionContext.getUniqueNamespaceValue(nsprefix);
+                            }
 
                             // Fix the name by removing the original prefix and
                             // inserting the new one.
